@@ -1,6 +1,6 @@
 """C01 - every forward frame decodes, and the decoded command re-encodes to it."""
 from symx import E, Case
-from harness.common import call, newdict, registry_digest
+from harness.common import call, newdict, registry_digest, event_map
 
 import dali.frame as F
 import dali.command as C
@@ -100,8 +100,7 @@ def h24map(ctx, entries=1, anyframe=False):
     if not anyframe:
         # event space, device/instance scheme: bit 16 = 0, bit 23 = 0, bit 15 = 1
         ctx.assume(E.eq(x & 0x818000, 0x008000))
-    m = helpers.DeviceInstanceTypeMapper()
-    m._mapping = newdict(ctx)
+    m = event_map(ctx)
     for e in range(1, entries):
         # further entries, filled through the real add_type with symbolic keys and types
         m.add_type(short_address=ctx.fresh("ka%d" % e, 0, 63), instance_number=ctx.fresh("ki%d" % e, 0, 31),
